@@ -14,6 +14,9 @@ Streams
                    run at Rat; parabola also through _set_intensities_com
   shift   exact    integer fitted origins: shift_origin_to for several batch sizes vs np.roll and vs the
                    model's periodic bilinear sampler run at Rat
+  agree   1 ulp    the two real classes on the SAME dataset against each other: CenterOfMassOriginModel vs
+                   PtychographyDatasetRaster (_set_intensities_com both paths, masked data included, several batch
+                   sizes; also through the public preprocess() entry point)
 The property predicate uses plain Python `fractions` / NumPy oracles that do not involve the model.
 """
 from fractions import Fraction
@@ -21,7 +24,7 @@ from fractions import Fraction
 LEVEL = "proof"
 MANIFEST_ENTRY = {
     "category": "proof",
-    "text": "Lean 4 theorems over three separately written executable models of the centre-of-mass code (torch batched calculate_origin, numpy vectorised and looped _set_intensities_com): for every carrier (incl. binary64) the batched result is independent of the batch size and the three paths return the same values; over R each equals the intensity-weighted mean row/column index of the (masked) pattern; a constant fit of constant origins and a PCA plane fit (any null vector of the scatter form) or least-squares fit (any minimiser; instantiated for the modelled _plane/_parabola/_bezier_two families) of origins lying exactly on a plane/surface return that surface; shift_origin_to with integer origin is exactly the circular roll (bilinear weights (1,0,0,0), periodic index). Tied to the code on every run by bit-exact comparison on integer-valued patterns for every batch size, masks, non-square shapes.",
+    "text": "Lean 4 theorems over three separately written executable models of the centre-of-mass code (torch batched calculate_origin, numpy vectorised and looped _set_intensities_com): for every carrier (incl. binary64) the batched result is independent of the batch size and the three paths return the same values; over R each equals the intensity-weighted mean row/column index of the (masked) pattern; a constant fit of constant origins and a PCA plane fit (any null vector of the scatter form) or least-squares fit (any minimiser; instantiated for the modelled _plane/_parabola/_bezier_two families) of origins lying exactly on a plane/surface return that surface; shift_origin_to with integer origin is exactly the circular roll (bilinear weights (1,0,0,0), periodic index). Tied to the code on every run by bit-exact comparison on integer-valued patterns for every batch size, masks, non-square shapes; the two real classes (direct-ptychography origin model, ptychography dataset model incl. preprocess()) are additionally compared with each other on the same datasets (<= 1 float32 ulp).",
     "note": "Proved: batch/path independence, COM = weighted mean, constant/plane exactness, integer shift = roll, all on the model. Measured only: torch.linalg.eigh and scipy curve_fit reach the fitted surface to float tolerance (PCA 5e-4 rel. float32, curve_fit 1e-6), grid_sample un-normalisation in float32 (1e-5*max). The curve_fit variants plane/parabola/bezier_two are modelled (surfaceF), covered in Lean by lsq_minimiser_exact / lsq_variants_exact (any least-squares minimiser reproduces data lying on the family) and exercised on exact surfaces with mask=None, all-True and partial masks. Patterns with zero total (masked) intensity are outside the property (positive intensities).",
     "technique": "Lean 4 proof (list induction, field algebra over R, floor/emod arithmetic) + exact model-vs-implementation correspondence",
 }
@@ -245,17 +248,44 @@ def com_case(ctx, drv, ds, batch_sizes=None):
         elif impl != first:
             ctx.pred_fail("com-torch-batch-dependent", "calculate_origin depends on max_batch_size", case,
                           observed={"batch": b, "values": impl}, required={"batch": bs[0], "values": first})
-    # ---------------- the two implementations agree (each rounds the same exact fraction once or twice: <= 1 float32 ulp)
+    # ---------------- agreement clause: the direct-ptychography origin model and the ptychography dataset model, driven
+    # on the SAME dataset, agree with each other (masked case: the origin model has no mask argument, it is given the
+    # masked intensities I*m, exact in float32).  One rounds the exact quotient once, the other twice: <= 1 float32 ulp.
+    def close(x, y):
+        return x == y or abs(x - y) <= 2.4e-7 * max(abs(x), abs(y))
     if ds["mask_halves"] is None:
-        pd._set_intensities_com(arr.copy(), fit_function="none", vectorized_calculation=True)
-        got = np.asarray(pd.com_measured)
-        for i in range(n):
-            a, b = divmod(i, sc)
-            for k in range(2):
-                x, y = float(got[k, a, b]), first[i][k]
-                if abs(x - y) > 2.5e-7 * max(1.0, abs(y)):
-                    ctx.pred_fail("com-torch-vs-dataset", "origin model and dataset model disagree on the centre of mass", dict(case_base, path="both"),
-                                  observed={"pattern": i, "dataset_model": x, "origin_model": y}, required="equal up to float32 rounding")
+        om2, tag = om, "unmasked"
+    else:
+        om2, tag = make_origin_model(arr * mask[None, None]), "masked"
+    nb = ctx.rng.fork(n * 131 + h).randint(1, n)
+    for b in ([None] if ds["mask_halves"] is None else [None, 1, nb]):
+        om2.calculate_origin(max_batch_size=b)
+        got = om2.origin_measured.detach().cpu().numpy()
+        for path in ("vec", "loop"):
+            ctx.count()
+            ctx.dist[f"agree:{tag}/{path}"] += 1
+            ctx.mark(("agree", sr, sc, h, w, ds["mask_kind"], path, b))
+            bad = [(i, k) for i in range(n) for k in range(2) if not close(float(got[i, k]), ds_model[path][i][k])]
+            if bad:
+                i, k = bad[0]
+                ctx.pred_fail("com-origin-model-vs-dataset-model", f"CenterOfMassOriginModel.calculate_origin and PtychographyDatasetRaster._set_intensities_com ({path}) "
+                              f"disagree on the centre of mass of the same ({tag}) dataset", dict(case_base, path=path, b=b),
+                              observed={"pattern": i, "component": "row" if k == 0 else "column", "origin_model": float(got[i, k]), "dataset_model": ds_model[path][i][k]},
+                              required="equal up to one float32 rounding")
+    # the same through the public preprocessing entry point of the dataset model (both paths), unmasked
+    if ds["mask_halves"] is None and (sr * 7 + sc + h) % 3 == 0:
+        for vec in (True, False):
+            pdp = make_raster(arr)
+            pdp.preprocess(com_fit_function="constant", plot_rotation=False, plot_com=False, force_com_rotation=0, force_com_transpose=False, vectorized=vec)
+            got = np.asarray(pdp.com_measured)
+            ctx.count()
+            ctx.dist["agree:preprocess/" + ("vec" if vec else "loop")] += 1
+            bad = [(i, k) for i in range(n) for k in range(2) if not close(float(got[k, i // sc, i % sc]), first[i][k])]
+            if bad:
+                i, k = bad[0]
+                ctx.pred_fail("com-origin-model-vs-preprocess", f"PtychographyDatasetRaster.preprocess(vectorized={vec}).com_measured and CenterOfMassOriginModel.origin_measured disagree on the same dataset",
+                              dict(case_base, path="preprocess", vectorized=vec), observed={"pattern": i, "dataset_model": float(got[k, i // sc, i % sc]), "origin_model": first[i][k]},
+                              required="equal up to one float32 rounding")
     ctx.sample({"stream": "com", "shape": [sr, sc, h, w], "mask": ds["mask_kind"], "pattern_kind": ds["kind"],
                 "first_pattern_exact_com": [str(exact[0][0]), str(exact[0][1])], "batch_sizes": [b for b in bs][:8]}, limit=2)
 
